@@ -262,6 +262,41 @@ std::string mutate_invalid(const std::string &text, Rng &rng) {
     return t;
 }
 
+// a rejected text must not leave anything behind in the object it was appended to (an interactive session keeps using the circuit
+// after an error): valid text appended afterwards means what it means on a fresh circuit, except that the complete instructions in
+// front of the offending one may have been kept
+void check_after_rejection(const std::string &t, Rng &rng, Stats &st) {
+    Circuit acc;
+    bool threw = false;
+    try {
+        acc.append_from_text(t);
+    } catch (const std::invalid_argument &) {
+        threw = true;
+    }
+    if (threw) {
+        std::string kept = acc.str();
+        static const std::vector<std::string> FOLLOW = {"M 0", "H 1 2", "X_ERROR(0.25) 3", "DETECTOR", "MPP X0*Z1", "TICK", "REPEAT 2 {\n    S 0\n}"};
+        std::string f = rng.pick(FOLLOW);
+        Circuit want;
+        bool kept_ok = true;
+        try {
+            want = kept.empty() ? Circuit(f) : Circuit(kept + "\n" + f);
+        } catch (const std::invalid_argument &e) {
+            kept_ok = false;
+            out_x(std::string("after a rejected text the circuit object prints as text that does not parse (`") + esc_line(kept).substr(0, 200) + "`): " + e.what());
+        }
+        if (kept_ok) {
+            try {
+                acc.append_from_text(f);
+                if (!(acc == want)) out_x("after a rejected text, appending `" + esc_line(f) + "` gives `" + esc_line(acc.str()).substr(0, 300) + "`");
+                st.hit("append_after_rejection");
+            } catch (const std::invalid_argument &e) {
+                out_x(std::string("valid text rejected after an earlier rejection: ") + e.what());
+            }
+        }
+    }
+}
+
 }  // namespace
 
 VH_AREA(text) {
@@ -274,6 +309,7 @@ VH_AREA(text) {
             std::string text = read_file(a.replay);
             out_case(k, esc_line(text).substr(0, 2000));
             judge_text(text, st, "replay");
+            check_after_rejection(text, rng, st);
             break;
         }
         int mode = (int)(k % 4);
@@ -306,40 +342,7 @@ VH_AREA(text) {
             std::string t = mutate_invalid(printed, rng);
             out_case(k, "violation " + esc_line(t).substr(0, 3000));
             judge_text(t, st, "violation");
-            // a rejected text must not leave anything behind in the object it was appended to (an interactive session keeps
-            // using the circuit after an error): valid text appended afterwards means what it means on a fresh circuit, except
-            // that the complete instructions in front of the offending one may have been kept
-            {
-                Circuit acc;
-                bool threw = false;
-                try {
-                    acc.append_from_text(t);
-                } catch (const std::invalid_argument &) {
-                    threw = true;
-                }
-                if (threw) {
-                    std::string kept = acc.str();
-                    static const std::vector<std::string> FOLLOW = {"M 0", "H 1 2", "X_ERROR(0.25) 3", "DETECTOR", "MPP X0*Z1", "TICK", "REPEAT 2 {\n    S 0\n}"};
-                    std::string f = rng.pick(FOLLOW);
-                    Circuit want;
-                    bool kept_ok = true;
-                    try {
-                        want = kept.empty() ? Circuit(f) : Circuit(kept + "\n" + f);
-                    } catch (const std::invalid_argument &e) {
-                        kept_ok = false;
-                        out_x(std::string("after a rejected text the circuit object prints as text that does not parse (`") + esc_line(kept).substr(0, 200) + "`): " + e.what());
-                    }
-                    if (kept_ok) {
-                        try {
-                            acc.append_from_text(f);
-                            if (!(acc == want)) out_x("after a rejected text, appending `" + esc_line(f) + "` gives `" + esc_line(acc.str()).substr(0, 300) + "`");
-                            st.hit("append_after_rejection");
-                        } catch (const std::invalid_argument &e) {
-                            out_x(std::string("valid text rejected after an earlier rejection: ") + e.what());
-                        }
-                    }
-                }
-            }
+            check_after_rejection(t, rng, st);
         } else {
             std::string t;
             if (rng.chance(0.5)) {
